@@ -276,3 +276,50 @@ def run_history(comp, wb, history, check_each=True):
         if not same(got, want[c]):
             return {'step': 'final', 'cell': c, 'got': got, 'want': want[c]}
     return None
+
+
+# -- static dependencies of a grammar workbook -----------------------------------------------------------
+
+_REF = re.compile(r"\$?([A-Z])\$?(\d+)(?::\$?([A-Z])\$?(\d+))?|\b([A-Z]):([A-Z])\b")
+
+
+def direct_reads(wb):
+    """cell -> set of cells (of this workbook) its formula mentions, ranges expanded, A:A clipped to the cells"""
+    cells = set(wb.cells())
+    out = {}
+    texts = dict(wb.formulas)
+    for origin, (ref, text) in wb.arrays.items():
+        a, b = ref.split(':')
+        for r in range(int(a[1:]), int(b[1:]) + 1):
+            for c in range(ord(a[0]), ord(b[0]) + 1):
+                texts[f'{chr(c)}{r}'] = text
+    for cell, f in texts.items():
+        reads = set()
+        body = re.sub(r'"[^"]*"', '', f)
+        for m in _REF.finditer(body):
+            if m.group(5):
+                for c in cells:
+                    if m.group(5) <= c[0] <= m.group(6):
+                        reads.add(c)
+            elif m.group(3):
+                for r in range(int(m.group(2)), int(m.group(4)) + 1):
+                    for c in range(ord(m.group(1)), ord(m.group(3)) + 1):
+                        reads.add(f'{chr(c)}{r}')
+            else:
+                reads.add(f'{m.group(1)}{m.group(2)}')
+        out[cell] = reads
+    return out
+
+
+def depends_on(wb, target):
+    """cells whose value depends (transitively) on target, target included"""
+    reads = direct_reads(wb)
+    dep = {target}
+    changed = True
+    while changed:
+        changed = False
+        for c, rs in reads.items():
+            if c not in dep and rs & dep:
+                dep.add(c)
+                changed = True
+    return dep
